@@ -836,4 +836,29 @@ def rule_m(ctx: Ctx) -> None:
     ctx.explain('C11.m: handler coverage of the urlopen / opener.open call sites over the reviewed raise-set; the normalisation of a location hint is under a ValueError handler.')
 
 
-RULES = [rule_a, rule_b, rule_c, rule_d, rule_e, rule_f, rule_g, rule_h, rule_i, rule_j, rule_k, rule_l, rule_m]
+def rule_n(ctx: Ctx) -> None:
+    """A generator ends with `return`.  `raise StopIteration` inside a generator function is converted by the interpreter into RuntimeError
+    (PEP 479), which no caller expects: a limit implemented that way turns 'stop here' into a crash."""
+    rule = 'C11.n'
+    n = 0
+    bad = 0
+    for f in ctx.idx.iter_functions():
+        if isinstance(f.node, ast.Lambda) or f.module.name.startswith('xmlschema.testing'):
+            continue
+        if not any(isinstance(x, (ast.Yield, ast.YieldFrom)) for x in walk_no_nested(f.node)):
+            continue
+        n += 1
+        parents = None
+        for r in walk_no_nested(f.node):
+            if isinstance(r, ast.Raise) and r.exc is not None and text(r.exc).split('(')[0] in ('StopIteration', 'StopAsyncIteration'):
+                parents = parents or enclosing_map(f.node)
+                caught = any({'StopIteration', 'Exception', 'BaseException'} & handler_classes(ctx, f, hs) for _, hs in enclosing_try_handlers(r, parents))
+                bad += 1
+                ctx.ob(rule, f'{f.qualname.split(".", 1)[-1]}: the generator ends with `return`, not with `raise StopIteration`', f.loc(r), caught,
+                       '' if caught else 'PEP 479 turns it into RuntimeError("generator raised StopIteration"): XMLResource(doc, iterparse=limited_parser(n)) crashes on a document '
+                       'with more than n parser events instead of stopping', key=f'{f.qualname}|raise-stopiteration')
+    ctx.ob(rule, f'{n} generator functions scanned for `raise StopIteration`', 'xmlschema/resources/parsers.py:1', n >= 50, '', key='generators|scanned', nontrivial=False)
+    ctx.explain('C11.n: every function containing `yield` is scanned for `raise StopIteration` outside a handler that catches it.')
+
+
+RULES = [rule_a, rule_b, rule_c, rule_d, rule_e, rule_f, rule_g, rule_h, rule_i, rule_j, rule_k, rule_l, rule_m, rule_n]
